@@ -425,7 +425,7 @@ func c03Scn(cs c03Case, bound int) *Scn {
 func init() {
 	harness.Register(&harness.Check{
 		Property: "C03", Level: "exploration", NeedsConc: true, QuickS: 200, ThoroughS: 1200,
-		Rule:   "all message sequences of length <=3 (quick) / <=4 (thorough) over {KEEPALIVE, UPDATE with body 0,1,4,23,4077 bytes} x segmentations of the byte stream: fixed write sizes {1,2,3,5,7,18,19,20,4096}, every partition with <=2 cut points taken from {first 24/40 bytes, every message boundary +-{0,1,2,18,19,20}, last byte}, with and without read coalescing, both directions; handler returning a NOTIFICATION at the j-th UPDATE; each case is one run of the real FSM over the virtual wire; in addition all schedules within the delay bound (1 quick / 2 thorough) of reader, FSM and handler for the streams of <=2 small messages; all cases non-trivial and distinct",
+		Rule:   "all message sequences of length <=3 (quick) / <=4 (thorough) over {KEEPALIVE, UPDATE with body 0,1,4,23,4077 bytes} x segmentations of the byte stream: fixed write sizes {1,2,3,5,7,18,19,20,4096}, every partition with <=2 cut points taken from {first 24/40 bytes, every message boundary +-{0,1,2,18,19,20}, last byte}, with and without read coalescing, both directions; handler returning a NOTIFICATION at the j-th UPDATE; each case is one run of the real FSM over the virtual wire; in addition all schedules within the delay bound (1 quick / 2 thorough) of reader, FSM and handler for the streams of <=2 small messages; plus the stream followed directly by FIN, bulk runs of 12-300 messages (body lengths cycling through 0..4077, KEEPALIVEs interleaved), and a handler that takes virtual time while further messages arrive; all cases non-trivial and distinct",
 		Assume: []string{"virtual network (A3): a Read returns the bytes of one write (or of all pending writes with coalescing)", "handlers return in zero time"},
 		Run:    c03Check,
 		Replay: func(c *harness.Ctx, raw json.RawMessage) {
